@@ -28,7 +28,7 @@ class CT(object):
     """C type of the loop target.  w/s: width, signedness.  pw: width of the type C
     arithmetic on it is carried out in (pw > w: promoted to a signed `int`).  bw: width
     of the (signed) type in which `reversed(range())` recomputes its bound when the
-    bounds are not of the target type (0: same as the loop arithmetic)."""
+    bounds are not of the target type (0: bounds of the target type)."""
 
     def __init__(self, w, s, pw=None, bw=0):
         self.w, self.s, self.pw, self.bw = w, s, pw or w, bw
@@ -60,14 +60,16 @@ def range_len(a, b, s):
     return (a - b - 1) // (-s) + 1 if a > b else 0
 
 
-def ref_seq(form, a, b, s):
+def ref_seq(form, a, b, s, limit=None):
+    """Reference iteration sequence (closed form of spec RefSeq); at most `limit` elements."""
     n = range_len(a, b, s)
+    m = n if limit is None else min(n, limit)
     if form == "fwd":
-        return [a + j * s for j in range(n)]
-    return [a + (n - 1 - j) * s for j in range(n)]
+        return [a + j * s for j in range(m)]
+    return [a + (n - 1 - j) * s for j in range(m)]
 
 
-def apply_body(seq, bk, ck, capped=False):
+def apply_body(seq, bk, ck):
     """Observation of the loop template over the iteration sequence `seq`:
     the n-th iteration (1-based) is skipped before logging when n == ck, and breaks
     after logging when n == bk.  -> (visited, final, else_ran)"""
@@ -122,15 +124,18 @@ def impl_run(ty, form, a, b, s, bk, cap):
             m = ar(B, k * (x // k), "calc")
             y = ar(B, a + sg * m, "calc")
             y = ar(B, y + sg, "calc")
-            b1 = st(y, "calc")
+            b1 = y if ty.bw else st(y, "calc")
     special = (not ty.s) and dec
+    # expressions over the bounds are evaluated in the bounds' type (B = A for bounds of type T)
     x = b1
     if off:
-        x = ar(A, x + off, "init")
+        x = ar(B, x + off, "init")
     if special:
-        x = ar(A, x + k, "init")
+        x = ar(B, x + k, "init")
     t = st(x, "init")
-    lim = ar(A, b2 + k, "bound") if special else b2
+    lim = ar(B, b2 + k, "bound") if special else b2
+    if ty.bw and not ty.s and ty.w >= ty.bw:
+        lim = wrap(ty.w, False, lim)     # comparison in the unsigned type
 
     def cond(t):
         if form == "fwd":
@@ -173,9 +178,9 @@ def classify(ty, form, a, b, s, bk, ck, cap):
     """-> (ref_obs or None when the reference runs into the cap, descriptor fields of the hazard)
     cause/kind of the first wrap event the body is exposed to ('' / 0 if none), dev: the
     wrap-around simulation deviates from the reference, pred: the simulated observation."""
-    rs = ref_seq(form, a, b, s)
-    n_exec = bk if (0 < bk <= len(rs) and bk != ck) else len(rs)
-    ref = None if n_exec > cap else list(apply_body(rs, bk, ck))
+    n = range_len(a, b, s)
+    n_exec = bk if (0 < bk <= n and bk != ck) else n
+    ref = None if n_exec > cap else list(apply_body(ref_seq(form, a, b, s, cap + 1), bk, ck))
     eff_bk = bk if bk != ck else 0
     r = impl_run(ty, form, a, b, s, eff_bk, cap)
     pred = ("E:" + CAPEXC) if r["capped"] else list(apply_body(r["seq"], bk, ck))
